@@ -56,7 +56,8 @@ RECURSIVE RelLines(_, _, _, _)
 \* f.cont: the type restriction of the FIRST relation of every declaration continues on a second line, and that line begins with a
 \* restriction on a type that is called `type` (a keyword the grammar admits as a name): it reads like a declaration, it is none
 Cont(f) == "cont" \in DOMAIN f /\ f.cont
-RelLines(f, rels, i, k) == IF i > Len(rels) THEN "" ELSE "    define" \o Gap(f) \o rels[i] \o (IF Loose(f) THEN " :" ELSE ":") \o " [k" \o ToString(k)
+\* (the second restriction names the relation itself: metadata that ends up under another relation of the same block shows)
+RelLines(f, rels, i, k) == IF i > Len(rels) THEN "" ELSE "    define" \o Gap(f) \o rels[i] \o (IF Loose(f) THEN " :" ELSE ":") \o " [k" \o ToString(k) \o ", own_" \o rels[i]
                              \o (IF Cont(f) /\ i = 1 THEN "," \o Eol(f) \o "      type with kc]" ELSE "]") \o Eol(f) \o RelLines(f, rels, i + 1, k)
 DeclText(f, d, k) == (IF Loose(f) THEN Eol(f) ELSE "")
                      \o (IF d.kind = "ext" THEN "extend" \o Gap(f) \o "type" \o Gap(f) ELSE "type" \o Gap(f)) \o d.name \o Eol(f)
